@@ -58,6 +58,14 @@ Theorem C08_start_failure_reported_refuted :
   exists c script, c_start_fail c = true /\ s_pc (fst (run_sm c script)) <> PDone OStartError.
 Proof. exact start_failure_refuted. Qed.
 
+(** "the child has been reaped": true when no worker is made to fail (missing: a
+    worker death before the process ends, F-C08d) *)
+Theorem C08_reaped_partial :
+  forall c script,
+    start_raises c = false -> no_exc script = true -> process_ends c script = true ->
+    s_reaped (fst (run_sm c script)) = true.
+Proof. exact reaped_partial. Qed.
+
 (** "the child has been reaped" / "a documented outcome": FALSE in two corners *)
 Theorem C08_reaped_refuted :          (* F-C08d *)
   exists c script, start_raises c = false /\ fair c = true /\ process_ends c script = true /\
